@@ -389,7 +389,7 @@ func (RaceScenario) Execute(sim *sched.Sim, ci interface{}, prop string, race bo
 			break
 		}
 		idle = 0
-		sim.Perform(acts[sim.Choose(len(acts), "action")])
+		sim.Perform(sim.Pick(acts))
 	}
 	out := &Outcome{Faults: map[string]int{}, Evals: steps}
 	out.Sample = c
